@@ -346,8 +346,15 @@ impl Feig {
                 sequences::ReadCardResponse::StatusInformation(data) => {
                     // Retrieve the card information.
                     let tlv = data.tlv.ok_or(zvt::ZVTError::IncompleteData)?;
-                    if !tlv.subs.is_empty() {
-                        let subs = &tlv.subs[0];
+                    // The applications are either listed directly or inside
+                    // the `subs_on_card` container.
+                    let listed = if tlv.subs.is_empty() {
+                        tlv.subs_on_card.as_ref().map_or(&[][..], |inner| &inner.subs[..])
+                    } else {
+                        &tlv.subs[..]
+                    };
+                    if !listed.is_empty() {
+                        let subs = &listed[0];
                         if subs.application_id.is_some() {
                             card_info = Some(CardInfo::Bank);
                         } else {
